@@ -112,6 +112,14 @@ def setup(common=None):
     _U["regs"] = {}
     _U["code"] = None
     _U["tab"] = common
+    order = [k for k in inspect.signature(UnitSystem.__init__).parameters if k in KW.values()]
+    _U["posorder"] = order
+    from unyt._unit_lookup_table import default_unit_name_alternatives
+
+    _A["alias"] = {}
+    for sym, alts in default_unit_name_alternatives.items():
+        if sym in _A["idx"] and alts:
+            _A["alias"][_A["idx"][sym]] = alts[0]
 
 
 # ------------------------------------------------------------------ projection
@@ -133,11 +141,16 @@ def _xproj(expr):
     import sympy
 
     out, unk, coef = [], [], False
+    coefv = 1.0
     pd = sympy.sympify(expr).as_powers_dict()
     for b, e in pd.items():
         if getattr(b, "is_Number", False):
             if b != 1:
                 coef = True
+                try:
+                    coefv *= float(b) ** float(e)
+                except Exception:  # noqa: BLE001
+                    coefv = float("nan")
             continue
         e12 = Fraction(str(sympy.Rational(e))) * 12 if getattr(e, "is_Rational", False) or isinstance(e, int) else None
         p, a = _split(str(b))
@@ -147,7 +160,34 @@ def _xproj(expr):
             continue
         out.append([p, a, int(e12)])
     out.sort(key=lambda t: (t[1], t[0], t[2]))
-    return {"x": out, "coef": coef, "unk": unk}
+    return {"x": out, "coef": coef, "unk": unk, "coefv": coefv}
+
+
+def _cpow(x):
+    """smallest power that makes the coefficient of a unit with these exponents rational (rule shared with UnitSystem.tla: CPow)"""
+    if all(t[2] % 12 == 0 for t in x):
+        return 1
+    if all(t[2] % 6 == 0 for t in x):
+        return 2
+    return 12
+
+
+def _coefr(pr):
+    """numeric coefficient of a projected unit, raised to _cpow, snapped to the nearest small rational (rel 1e-9);
+    [0, 1] when it is not one (TLC then compares it with the rational the base units imply)"""
+    import math
+
+    k = _cpow(pr["x"])
+    try:
+        v = float(pr["coefv"]) ** k
+    except OverflowError:
+        return [0, 1], k
+    if not math.isfinite(v) or v <= 0:
+        return [0, 1], k
+    f = Fraction(v).limit_denominator(10**6)
+    if f.numerator == 0 or f.numerator >= 2**31 or abs(float(f) - v) > 1e-9 * abs(v):
+        return [0, 1], k
+    return [f.numerator, f.denominator], k
 
 
 def _ustr(x):
@@ -202,7 +242,7 @@ def tables(case=None):
                 continue
             decl.append({"dim": vec, "x": pr["x"]})
         short = name if name in ("cgs", "mks") else ""
-        systems.append({"name": name, "base": base, "decl": decl, "reg": 0, "coef": coef, "short": short, "ok": okay})
+        systems.append({"name": name, "base": base, "bcoef": [[1, 1]] * 9, "decl": decl, "reg": 0, "coef": coef, "short": short, "ok": okay and not coef})
     # the code-unit system (created lazily in every worker under the registry's id)
     cb = [[0, 0]] * 9
     for sym, sc, dn in CODE_ATOMS:
@@ -218,7 +258,7 @@ def tables(case=None):
             defaults[i] = [p, a]
     for i in (4, 5, 7, 8):
         cb[i] = defaults[i]
-    systems.append({"name": "code", "base": cb, "decl": [], "reg": 1, "coef": False, "short": "", "ok": True})
+    systems.append({"name": "code", "base": cb, "bcoef": [[1, 1]] * 9, "decl": [], "reg": 1, "coef": False, "short": "", "ok": True})
     return {
         "atoms": _A["atoms"],
         "nprefix": len(_A["prefixes"]),
@@ -244,21 +284,42 @@ def _code_registry():
     return U["code"]
 
 
+def _base_value(pa, coef, style, registry=None):
+    """one base-unit argument of UnitSystem(...) in the requested value class"""
+    U = _U
+    if pa[1] == 0:
+        return None
+    name = _one(pa)
+    c = Fraction(int(coef[0]), int(coef[1]))
+    cf = float(c)
+    if style == "alias" and pa[0] == 0 and c == 1:
+        return _A["alias"].get(pa[1], name)
+    if style == "quantity":
+        return U["uq"](cf, name, registry=registry)
+    if style == "unitobj":
+        return U["Unit"](name if c == 1 else f"{cf!r}*{name}", registry=registry)
+    return name if c == 1 else f"{cf!r}*{name}"
+
+
 def _new_user_system(spec, registry=None):
-    """create a UnitSystem from a generated spec; returns (name, system or None, outcome)"""
+    """create a UnitSystem from a generated spec {base, [bcoef], [style], [form], [reg]}; returns (name, system or None, outcome)"""
     U = _U
     _N[0] += 1
     name = f"c10u_{os.getpid()}_{_N[0]}"
+    style = spec.get("style", "str")
+    bcoef = spec.get("bcoef") or [[1, 1]] * 9
+    if spec.get("reg", 0) == 1 and registry is None:
+        registry = _code_registry()[0]
     kw = {}
     for i, s in enumerate(SLOTS):
         if s is None:
             continue
-        pa = spec["base"][i]
-        kw[KW[s]] = None if pa[1] == 0 else _one(pa)
-    if spec.get("style") == "unitobj":
-        kw = {k: (U["Unit"](v) if v is not None else None) for k, v in kw.items()}
+        kw[KW[s]] = _base_value(spec["base"][i], bcoef[i], style, registry)
     try:
-        S = U["UnitSystem"](name, registry=registry, **kw)
+        if spec.get("form") == "pos":
+            S = U["UnitSystem"](name, *[kw[k] for k in _U["posorder"]], registry=registry)
+        else:
+            S = U["UnitSystem"](name, registry=registry, **kw)
     except Exception as ex:  # noqa: BLE001
         return name, None, {"k": "raise", "exc": type(ex).__name__, "registered": name in U["usr"]}
     return name, S, {"k": "ok", "exc": "", "registered": name in U["usr"]}
@@ -283,11 +344,19 @@ def _drop(name):
 def _res(r, is_unit):
     units = r if is_unit else r.units
     pr = _xproj(units.expr)
-    return {"k": "ok", "exc": "", "x": pr["x"], "coef": pr["coef"], "unk": pr["unk"], "dim": _dimvec(units.dimensions) or [99] * 9}
+    cr, k = _coefr(pr)
+    return {"k": "ok", "exc": "", "x": pr["x"], "coef": pr["coef"], "coefr": cr, "cpow": k, "unk": pr["unk"], "dim": _dimvec(units.dimensions) or [99] * 9}
+
+
+def _ux(expr):
+    """unit of a twin / second application: triples + coefficient"""
+    pr = _xproj(expr)
+    cr, k = _coefr(pr)
+    return {"x": pr["x"], "coefr": cr}
 
 
 def _raise(ex):
-    return {"k": "raise", "exc": type(ex).__name__, "x": [], "coef": False, "unk": [], "dim": [0] * 9}
+    return {"k": "raise", "exc": type(ex).__name__, "x": [], "coef": False, "coefr": [1, 1], "cpow": 1, "unk": [], "dim": [0] * 9}
 
 
 def _apply(var, q, arr, sysarg, short):
@@ -349,8 +418,8 @@ def _in_range(*units):
     return True
 
 
-NOINPUT = {"k": "noinput", "exc": "", "x": [], "coef": False, "unk": [], "dim": [0] * 9, "back": True, "si": True,
-           "gbe": {"k": "noinput", "x": []}, "twice": {"k": "noinput", "x": [], "same": True}}
+NOINPUT = {"k": "noinput", "exc": "", "x": [], "coef": False, "coefr": [1, 1], "cpow": 1, "unk": [], "dim": [0] * 9, "back": True, "si": True,
+           "gbe": {"k": "noinput", "x": [], "coefr": [1, 1]}, "twice": {"k": "noinput", "x": [], "coefr": [1, 1], "same": True}}
 
 
 def _operate(var, x, sysname, sysobj, short, registry):
@@ -393,13 +462,13 @@ def _operate(var, x, sysname, sysobj, short, registry):
             return o
     o["back"] = True
     o["si"] = True
-    o["twice"] = {"k": "none", "x": [], "same": True}
+    o["twice"] = {"k": "none", "x": [], "coefr": [1, 1], "same": True}
     # Unit-level twin (on a fresh Unit object so the value-level call cannot have changed it)
     try:
         g = U["Unit"](ustr, registry=registry).get_base_equivalent(None if var in ("default", "default_conv") else sysarg)
-        o["gbe"] = {"k": "ok", "x": _xproj(g.expr)["x"]}
+        o["gbe"] = dict(_ux(g.expr), k="ok")
     except Exception as ex:  # noqa: BLE001
-        o["gbe"] = {"k": "raise", "x": [], "exc": type(ex).__name__}
+        o["gbe"] = {"k": "raise", "x": [], "coefr": [1, 1], "exc": type(ex).__name__}
     if o["k"] != "ok":
         return o
     if not is_unit:
@@ -418,13 +487,13 @@ def _operate(var, x, sysname, sysobj, short, registry):
         if is_unit:
             q2 = U["uq"](1.0, r)
             r2, _ = _apply(var, q2, None, sysarg, short)
-            o["twice"] = {"k": "ok", "x": _xproj(r2.expr)["x"], "same": True}
+            o["twice"] = dict(_ux(r2.expr), k="ok", same=True)
         else:
             q2 = r
             r2, _ = _apply(var, q2, q2, sysarg, short)
-            o["twice"] = {"k": "ok", "x": _xproj(r2.units.expr)["x"], "same": _close(r2.d, r.d, _floor(r.units))}
+            o["twice"] = dict(_ux(r2.units.expr), k="ok", same=_close(r2.d, r.d, _floor(r.units)))
     except Exception as ex:  # noqa: BLE001
-        o["twice"] = {"k": "raise", "x": [], "same": False, "exc": type(ex).__name__}
+        o["twice"] = {"k": "raise", "x": [], "coefr": [1, 1], "same": False, "exc": type(ex).__name__}
     return o
 
 
@@ -443,11 +512,12 @@ def observe(case):
     name, S, made = _new_user_system(spec)
     try:
         if S is None:
-            return {"k": "nosystem", "exc": made["exc"], "x": [], "coef": False, "unk": [], "dim": [0] * 9, "back": True, "si": True,
-                    "gbe": {"k": "none", "x": []}, "twice": {"k": "none", "x": [], "same": True}, "made": made}
+            o = dict(NOINPUT)
+            o.update(k="nosystem", exc=made["exc"], made=made)
+            return o
         for d in spec["decl"]:
             _declare(S, d)
-        o = _operate(var, x, name, S, "", None)
+        o = _operate(var, x, name, S, "", _code_registry()[0] if spec.get("reg", 0) == 1 else None)
         o["made"] = made
         return o
     finally:
